@@ -71,30 +71,6 @@ type hpFault struct {
 	OpsSeen int    `json:"ops_seen_in_step"`
 }
 
-// portAllocator hands out probed-free fixed ports from this child's slice of the harness range.
-type portAllocator struct {
-	base, n, next int
-}
-
-func (a *portAllocator) take() int32 {
-	for try := 0; try < a.n; try++ {
-		port := a.base + a.next%a.n
-		a.next++
-		l, err := net.Listen("tcp", fmt.Sprintf(":%d", port))
-		if err != nil {
-			continue
-		}
-		l.Close()
-		u, err := net.ListenUDP("udp", &net.UDPAddr{Port: port})
-		if err != nil {
-			continue
-		}
-		u.Close()
-		return int32(port)
-	}
-	return 0
-}
-
 const foreignNat = `*nat
 :DOCKER - [0:0]
 :KUBE-SERVICES - [0:0]
@@ -632,6 +608,11 @@ func (w *hpWorld) step(i int) {
 				w.run.Count("steps_add_taken_refused", 1)
 			} else if w.faultedHere() {
 				w.run.Count("steps_add_failed_by_fault", 1)
+			} else if k := busyPortKey(body); k != "" && !w.ownsPort(k) {
+				// the bind failed on a port that no socket of this process holds: some other process on the node took it
+				// after the probe. Environment; the pod is a failed ADD that must leave nothing behind.
+				kind = "add-taken"
+				w.run.Count("add_failed_port_taken_by_other_process", 1)
 			} else {
 				w.violate("daemon-add-fails-without-cause", fmt.Sprintf("ADD %s: no fault injected, no port clash, status %d: %s", c.cid, status, body), nil)
 				return
@@ -974,6 +955,17 @@ func (w *hpWorld) check(kind string, actor *hpCtr) {
 			continue
 		}
 		if !bound[k] {
+			if c != nil && strings.Contains(kind, "restart") && !c.hasRandom() && c.noneBound(bound) && c.anyHeldByOther() {
+				// same for a fixed port that another process bound while the daemon was down (it still holds it)
+				run.Count("restart_pod_not_rebound_fixed_port_held_by_other_process", 1)
+				if c.lost == nil {
+					c.lost = map[string]bool{}
+				}
+				for _, sk := range c.socketKeys() {
+					c.lost[sk] = true
+				}
+				continue
+			}
 			if c != nil && strings.Contains(kind, "restart") && c.hasRandom() && c.noneBound(bound) {
 				// "port maybe taken by other process during restart, but we can do nothing about that" (server.go):
 				// a kernel-chosen port was released when the old daemon died; anything on the node (an outgoing
@@ -1036,10 +1028,45 @@ func (w *hpWorld) check(kind string, actor *hpCtr) {
 	}
 }
 
+// busyPortKey extracts "proto:port" from galaxy's "cannot open hostport N ...: listen proto :N: bind: address already in use".
+func busyPortKey(body string) string {
+	if !strings.Contains(body, "address already in use") {
+		return ""
+	}
+	i := strings.Index(body, ": listen ")
+	if i < 0 {
+		return ""
+	}
+	var proto string
+	var port int
+	if _, err := fmt.Sscanf(body[i+len(": listen "):], "%s :%d:", &proto, &port); err != nil {
+		return ""
+	}
+	return fmt.Sprintf("%s:%d", proto, port)
+}
+
+// ownsPort: does a socket of this process hold the port (then galaxy itself is the holder: not environment)?
+func (w *hpWorld) ownsPort(key string) bool {
+	b, err := ownBoundPortsStable(nil)
+	if err != nil {
+		return true
+	}
+	return b[key]
+}
+
 // hasRandom: does the pod have a port the kernel chose (hostPort 0 + annotation)?
 func (c *hpCtr) hasRandom() bool {
 	for _, pp := range c.pod.Ports {
 		if pp.HostPort == 0 && c.pod.PortMapAnn {
+			return true
+		}
+	}
+	return false
+}
+
+func (c *hpCtr) anyHeldByOther() bool {
+	for _, sk := range c.socketKeys() {
+		if heldByOther(sk) {
 			return true
 		}
 	}
@@ -1159,7 +1186,8 @@ func c14Batch(run *evid.Run, env *runEnv, tier string, from, to, portBase int) {
 		b, _ := json.Marshal(m)
 		cfg.JSONText = string(b)
 	}
-	alloc := &portAllocator{base: portBase, n: 380}
+	alloc := newPortAllocator()
+	_ = portBase
 	for hi := from; hi < to; hi++ {
 		rng := run.Rng("c14-history", hi)
 		h := genHistory(rng, alloc, hi)
@@ -1299,6 +1327,9 @@ func c14Main(fl *evid.Flags, merge bool) int {
 		if run.Counter(name) == 0 {
 			run.Inconclusive("counter " + name + " is zero: the situation it stands for was never observed")
 		}
+	}
+	if env, adds := run.Counter("add_failed_port_taken_by_other_process"), run.Counter("steps_add_ok"); env*20 > adds+env {
+		run.Inconclusive(fmt.Sprintf("%d of %d ADDs lost their host port to another process: too much interference on this node", env, adds+env))
 	}
 	return run.Finish(evid.Tiered(fl.Tier, 40, 400))
 }
